@@ -38,6 +38,8 @@ TEMPLATES = (
     ("abstract", "{ n { id ... on Obj { x } } a }"),
     ("merge", "{ a o { x } o { y } }"),
     ("mutation", "mutation { m1 { x } m2 { x y } m3 }"),
+    ("wide", "{ a o { x y } l { x } n { id } }"),
+    ("deep-list", "{ l { x y } o { y x } }"),
 )
 
 
